@@ -60,8 +60,13 @@ class RemoveAnyNeverTransformer(cst.CSTTransformer):
 
   def leave_AnnAssign(
       self, original_node: cst.AnnAssign, updated_node: cst.AnnAssign
-  ) -> cst.CSTNode:
-    if self._is_any_or_never(original_node.annotation):
+  ) -> cst.CSTNode | cst.RemovalSentinel:
+    # `annotation` is the `Annotation` wrapper; the type expression is inside it.
+    if self._is_any_or_never(original_node.annotation.annotation):
+      if updated_node.value is None:
+        # `x: Any` has nothing left once the annotation is dropped (a bare `x`
+        # would be an expression statement), so remove the declaration.
+        return cst.RemovalSentinel.REMOVE
       return cst.Assign(
           targets=[cst.AssignTarget(target=updated_node.target)],
           value=updated_node.value,
